@@ -24,6 +24,7 @@ import (
 	"fmt"
 	"sort"
 	"strings"
+	"sync"
 	"sync/atomic"
 
 	"github.com/risor-io/risor"
@@ -405,6 +406,20 @@ func (u *universe) baselineAttempts(r *ev.Run) {
 
 // ---------------------------------------------------------------- one case
 
+// reporter files a failing case. The parallel phase collects the cases and files
+// them in job order, so the witness kept per signature is the same on every run.
+type reporter func(sig, what string, in caseIn, observed, expected string)
+
+func direct(r *ev.Run) reporter {
+	return func(sig, what string, in caseIn, observed, expected string) { r.Report(sig, what, in, observed, expected) }
+}
+
+type pendingReport struct {
+	job                           int
+	sig, what, observed, expected string
+	in                            caseIn
+}
+
 type caseIn struct {
 	Kind   string    `json:"kind"` // closure | script | sequence | sequence-script
 	Cfg    cfgSpec   `json:"config"`
@@ -444,16 +459,16 @@ func (u *universe) effective(c cfgSpec) (removed map[string]bool, denied, overri
 }
 
 // checkClosure is part (a) for one configuration.
-func (u *universe) checkClosure(r *ev.Run, c cfgSpec, verbose bool) (states, trans int) {
+func (u *universe) checkClosure(r *ev.Run, report reporter, c cfgSpec, verbose bool) (states, trans int) {
 	_, globals, repl, pan := c.build()
 	in := caseIn{Kind: "closure", Cfg: c}
 	if pan != "" {
-		r.Report("c11-panic", "building "+c.String()+" panicked: "+pan, in, "panic", "a Config")
+		report("c11-panic", "building "+c.String()+" panicked: "+pan, in, "panic", "a Config")
 		return 0, 0
 	}
 	g := buildGraph(globals, u.alphabet)
 	for _, p := range g.panics {
-		r.Report("c11-panic", c.String()+": GetAttr panicked at "+p, in, "panic", "attribute or not found")
+		report("c11-panic", c.String()+": GetAttr panicked at "+p, in, "panic", "attribute or not found")
 	}
 	removed, denied, overridden := u.effective(c)
 	if verbose {
@@ -479,11 +494,11 @@ func (u *universe) checkClosure(r *ev.Run, c cfgSpec, verbose bool) (states, tra
 			}
 			switch {
 			case v.names[n] && overridden[n]:
-				r.Report("closure-override-not-installed", fmt.Sprintf("%s: the name %s still resolves to the original %s", c.String(), n, v.fp), in, v.fp, "the replacement")
+				report("closure-override-not-installed", fmt.Sprintf("%s: the name %s still resolves to the original %s", c.String(), n, v.fp), in, v.fp, "the replacement")
 			case v.names[n]:
-				r.Report("closure-denied-name-resolves", fmt.Sprintf("%s: the name %s still resolves to %s", c.String(), n, v.fp), in, v.path+" = "+v.fp, "not reachable")
+				report("closure-denied-name-resolves", fmt.Sprintf("%s: the name %s still resolves to %s", c.String(), n, v.fp), in, v.path+" = "+v.fp, "not reachable")
 			case !legit:
-				r.Report("closure-removed-object-reachable", fmt.Sprintf("%s: the object registered as %s (%s) is reachable through %s", c.String(), n, v.fp, v.path), in, v.path+" = "+v.fp, "not reachable")
+				report("closure-removed-object-reachable", fmt.Sprintf("%s: the object registered as %s (%s) is reachable through %s", c.String(), n, v.fp, v.path), in, v.path+" = "+v.fp, "not reachable")
 			}
 			if verbose {
 				fmt.Printf("  removed %s: object %s reachable at %s (names %v, legit alias %v)\n", n, v.fp, v.path, keys(v.names), legit)
@@ -494,9 +509,9 @@ func (u *universe) checkClosure(r *ev.Run, c cfgSpec, verbose bool) (states, tra
 		nd, ok := g.resolve(o)
 		switch {
 		case ok && nd.obj != repl:
-			r.Report("closure-override-not-installed", fmt.Sprintf("%s: %s resolves to %s, not to the replacement", c.String(), o, nd.fp), in, nd.fp, "the replacement")
+			report("closure-override-not-installed", fmt.Sprintf("%s: %s resolves to %s, not to the replacement", c.String(), o, nd.fp), in, nd.fp, "the replacement")
 		case !ok && !denied[o]:
-			r.Report("closure-override-missing", fmt.Sprintf("%s: %s does not resolve at all", c.String(), o), in, "not found", "the replacement")
+			report("closure-override-missing", fmt.Sprintf("%s: %s does not resolve at all", c.String(), o), in, "not found", "the replacement")
 		}
 		if verbose {
 			fmt.Printf("  override %s: resolves=%v replacement=%v\n", o, ok, ok && nd.obj == repl)
@@ -508,7 +523,7 @@ func (u *universe) checkClosure(r *ev.Run, c cfgSpec, verbose bool) (states, tra
 			want = 1
 		}
 		if len(g.roots) != want {
-			r.Report("closure-no-defaults-not-empty", fmt.Sprintf("%s: %d globals remain: %v", c.String(), len(g.roots), ev.Clip(strings.Join(keys2(g.roots), ","), 200)), in, fmt.Sprint(len(g.roots)), fmt.Sprint(want))
+			report("closure-no-defaults-not-empty", fmt.Sprintf("%s: %d globals remain: %v", c.String(), len(g.roots), ev.Clip(strings.Join(keys2(g.roots), ","), 200)), in, fmt.Sprint(len(g.roots)), fmt.Sprint(want))
 		}
 	}
 	r.Outcome(fmt.Sprintf("closure|%s|%d-roots-delta", c.kind(), len(g.roots)-len(u.base.roots)))
@@ -534,7 +549,7 @@ func keys2(m map[string]int) []string {
 }
 
 // checkScript is part (b) for one configuration and one attempt.
-func (u *universe) checkScript(r *ev.Run, c cfgSpec, a attempt, verbose bool) {
+func (u *universe) checkScript(r *ev.Run, report reporter, c cfgSpec, a attempt, verbose bool) {
 	if a.F0 == "" {
 		return
 	}
@@ -548,7 +563,7 @@ func (u *universe) checkScript(r *ev.Run, c cfgSpec, a attempt, verbose bool) {
 	switch {
 	case res.panicked != "":
 		class = "panic"
-		r.Report("c11-panic", fmt.Sprintf("%s: %q panicked: %s", c.String(), a.Script, res.panicked), in, "panic", "value or error")
+		report("c11-panic", fmt.Sprintf("%s: %q panicked: %s", c.String(), a.Script, res.panicked), in, "panic", "value or error")
 	case res.err != nil:
 		class = errClass(res.err)
 		// a failing path is what a denial asks for; under an override the direct paths must observe the replacement
@@ -556,7 +571,7 @@ func (u *universe) checkScript(r *ev.Run, c cfgSpec, a attempt, verbose bool) {
 			_, replIsModule := repl.(*object.Module)
 			importOfNonModule := a.Group == "import" && u.byName[a.Target].IsModule && !replIsModule
 			if !importOfNonModule {
-				r.Report("override-path-fails:"+a.Group, fmt.Sprintf("%s: %q fails (%s) instead of yielding the replacement", c.String(), a.Script, ev.Clip(res.err.Error(), 120)), in, res.err.Error(), "the replacement")
+				report("override-path-fails:"+a.Group, fmt.Sprintf("%s: %q fails (%s) instead of yielding the replacement", c.String(), a.Script, ev.Clip(res.err.Error(), 120)), in, res.err.Error(), "the replacement")
 			}
 		}
 	case repl != nil && res.obj == repl:
@@ -570,13 +585,13 @@ func (u *universe) checkScript(r *ev.Run, c cfgSpec, a attempt, verbose bool) {
 		case f == a.F0:
 			class = "ok:same-as-default"
 			if overridden[a.Target] && !denied[a.Target] {
-				r.Report("override-not-observed:"+a.Group, fmt.Sprintf("%s: %q still yields the original %s", c.String(), a.Script, f), in, f, "the replacement")
+				report("override-not-observed:"+a.Group, fmt.Sprintf("%s: %q still yields the original %s", c.String(), a.Script, f), in, f, "the replacement")
 			} else {
-				r.Report("script-reaches-removed:"+a.Group, fmt.Sprintf("%s: %q still yields %s", c.String(), a.Script, f), in, f, "compile error or runtime error")
+				report("script-reaches-removed:"+a.Group, fmt.Sprintf("%s: %q still yields %s", c.String(), a.Script, f), in, f, "compile error or runtime error")
 			}
 		case demand:
 			class = "ok:other"
-			r.Report("override-not-observed:"+a.Group, fmt.Sprintf("%s: %q yields %s, not the replacement", c.String(), a.Script, f), in, f, "the replacement")
+			report("override-not-observed:"+a.Group, fmt.Sprintf("%s: %q yields %s, not the replacement", c.String(), a.Script, f), in, f, "the replacement")
 		default:
 			class = "ok:other"
 			r.Add("removed_attempt_other_result", 1)
@@ -665,11 +680,11 @@ func Check(r *ev.Run, replay string) {
 	if u == nil {
 		return
 	}
-	u.baselineAttempts(r)
 	if replay != "" {
 		replayOne(r, u, replay)
 		return
 	}
+	u.baselineAttempts(r)
 	r.Assumptions = []string{
 		"reachability is closure under GetAttr (what LoadAttr, getattr and from-import use) plus the import table; values obtained by *calling* a reachable builtin are not followed",
 		"identity across separately built configurations: builtins by (Key(), Go function symbol), modules by name, other values by (type, Inspect()); a different object wrapping the same Go function under another registered name is an alias, not a violation",
@@ -807,18 +822,29 @@ func Check(r *ev.Run, replay string) {
 			}
 		}
 	}
+	var pmu sync.Mutex
+	var pending []pendingReport
 	ev.ParFor(len(jobs), func(i int) {
 		j := jobs[i]
 		c := all[j.cfg]
+		report := func(sig, what string, in caseIn, observed, expected string) {
+			pmu.Lock()
+			pending = append(pending, pendingReport{i, sig, what, observed, expected, in})
+			pmu.Unlock()
+		}
 		if j.att < 0 {
-			s, t := u.checkClosure(r, c, false)
+			s, t := u.checkClosure(r, report, c, false)
 			addST(s, t)
 			r.Eval(1)
 			return
 		}
-		u.checkScript(r, c, u.attempts[j.att], false)
+		u.checkScript(r, report, c, u.attempts[j.att], false)
 		r.Eval(1)
 	})
+	sort.SliceStable(pending, func(a, b int) bool { return pending[a].job < pending[b].job })
+	for _, p := range pending {
+		r.Report(p.sig, p.what, p.in, p.observed, p.expected)
+	}
 	r.Sample(caseIn{Kind: "closure", Cfg: cfgSpec{Deny: []string{"os.exit"}}})
 	r.Sample(caseIn{Kind: "script", Cfg: cfgSpec{Deny: []string{"os.exit"}}, Script: "os.getenv.__module__.exit", Target: "os.exit", Form: "backref-attr"})
 	r.Sample(caseIn{Kind: "script", Cfg: cfgSpec{Override: []string{"os.getenv"}, Repl: "builtin"}, Script: "from os import getenv\ngetenv", Target: "os.getenv", Form: "from-import"})
@@ -855,7 +881,7 @@ func (u *universe) validateBaseline(r *ev.Run) {
 		ps = append(ps, pe{u.base.nodes[e.from].path + "." + e.attr, to.fp})
 	}
 	sort.Slice(ps, func(i, j int) bool { return ps[i].path < ps[j].path })
-	var mism int64
+	mism := make([]string, len(ps))
 	ev.ParFor(len(ps), func(i int) {
 		res := evalScript(ps[i].path, nil)
 		got := ""
@@ -868,12 +894,16 @@ func (u *universe) validateBaseline(r *ev.Run) {
 			got = fp(res.obj)
 		}
 		if got != ps[i].fp {
-			if atomic.AddInt64(&mism, 1) == 1 {
-				r.EngineError(fmt.Sprintf("closure model and VM disagree under the default configuration: %s is %s in the closure, the script yields %s", ps[i].path, ps[i].fp, ev.Clip(got, 160)))
-			}
+			mism[i] = fmt.Sprintf("closure model and VM disagree under the default configuration: %s is %s in the closure, the script yields %s", ps[i].path, ps[i].fp, ev.Clip(got, 160))
 		}
 		r.Outcome("baseline-edge|" + strings.SplitN(ps[i].fp, "|", 2)[0])
 	})
+	for _, m := range mism {
+		if m != "" {
+			r.EngineError(m)
+			break
+		}
+	}
 	r.Set("baseline_paths_validated", len(ps))
 }
 
@@ -938,7 +968,7 @@ func replayOne(r *ev.Run, u *universe, path string) {
 	fmt.Printf("replay: kind=%s config=%s\n", in.Kind, in.Cfg.String())
 	switch in.Kind {
 	case "closure":
-		u.checkClosure(r, in.Cfg, true)
+		u.checkClosure(r, direct(r), in.Cfg, true)
 	case "script", "sequence-script":
 		a := attempt{Form: in.Form, Script: in.Script, Target: in.Target, Direct: true, Group: "attr"}
 		found := false
@@ -948,15 +978,13 @@ func replayOne(r *ev.Run, u *universe, path string) {
 				break
 			}
 		}
-		if !found {
-			res := evalScript(a.Script, nil)
-			if res.err == nil && res.obj != nil {
-				a.F0 = fp(res.obj)
-			}
+		_ = found
+		if res := evalScript(a.Script, nil); res.err == nil && res.obj != nil {
+			a.F0 = fp(res.obj)
 		}
 		fmt.Printf("  default configuration: %q -> %s\n", a.Script, a.F0)
 		if in.Kind == "script" {
-			u.checkScript(r, in.Cfg, a, true)
+			u.checkScript(r, direct(r), in.Cfg, a, true)
 		} else {
 			u.runSequenceScript(r, in.Cfg, a, true)
 		}
